@@ -62,6 +62,7 @@ PLAN = {
         "chunk": 800,
     },
     "C08": {
+        "mc": [M("validate", "MC_Validate.tla", "MC_Validate.cfg")],
         "gen": [G("faults", "Gen_Validate.cfg", module="Gen_Validate.tla")],
         "drive": [D("validate", 500, 20000)],
         "exhaustive_note": "every single fault (quick) / every ordered pair of faults (thorough) of two base instances: duplicate ids (vars; constraints within and across lists), undefined ids at each position, each required field unset, each invalid bound shape, repeated ids in hints",
@@ -109,6 +110,7 @@ OWN = {
     "C05": {"mc": [MC_INST], "gen": [G("evaluate", "Gen_Inst_Evaluate.cfg", module="Gen_Inst.tla")], "drive": [D("evaluate", 2000, 100000)]},
     "C06": {"mc": [MC_INST], "gen": [G("samples", "Gen_Inst_Samples.cfg", module="Gen_Inst.tla")], "drive": [D("samples", 1000, 50000)]},
     "C08": {
+        "mc": [M("validate", "MC_Validate.tla", "MC_Validate.cfg")],
         "gen": [G("faults", "Gen_Validate.cfg", module="Gen_Validate.tla")],
         "drive": [D("validate", 500, 20000)],
         "exhaustive_note": "every single fault (quick) / every ordered pair of faults (thorough) of two base instances: duplicate ids (vars; constraints within and across lists), undefined ids at each position, each required field unset, each invalid bound shape, repeated ids in hints",
